@@ -209,7 +209,9 @@ pub fn histories() -> Vec<(String, Cfg, Vec<Op>)> {
 fn continuations(cfg: &Cfg) -> Vec<Vec<Op>> {
     let v = Op::WV { pts: T(50.0), data: Bytes::new(oracle::frames::video_frame(cfg.codec, true, true, 9, 4).0), key: true };
     let a = Op::WA { pts: T(50.0), data: Bytes::new(oracle::frames::audio_frame(cfg.audio.as_ref().map(|a| a.codec).unwrap_or(ACodec::AacLc), 9, 4).0) };
-    let singles = vec![Op::FinishInPlace, v, a, Op::FinishInPlaceStats];
+    // (the consuming finishers end the object's life: nothing can follow them, which the
+    // NotRun results of later calls reflect)
+    let singles = vec![Op::FinishInPlace, v, a, Op::FinishInPlaceStats, Op::Flush, Op::Finish, Op::FinishStats];
     let mut out = vec![vec![]];
     for x in &singles {
         out.push(vec![x.clone()]);
@@ -450,7 +452,7 @@ pub fn check(ctx: &Ctx) -> i32 {
         &tally,
         Meta {
             level: "fault_enumeration",
-            rule: format!("{nhist} representative histories (video-only with reordering, A/V, zero-frame, single-frame; fast start on/off; with/without metadata; 4 codecs, AAC and Opus) finished on a scripted sink. Enumerated per history: (a) failure at every write call x {{Ok(0), and every stable std::io::ErrorKind except Interrupted (39 kinds)}}; (b) every byte budget j (accept exactly j bytes, then fail) for every offset of the fault-free output; (c) every schedule with <= {max_dev} deviations from accept-all over {{1 byte, half, Interrupted}}, and every 1-deviation schedule followed by a failure at every later call; (d) the full product of {{all, 1 byte, half, Interrupted}} over all calls for files written in <= 8 calls; after the finish attempt every continuation of <= 2 calls from {{finish, write_video, write_audio, finish_with_stats}} (for single-answer scripts). A case is distinct by (result vector, bytes the sink accepted)."),
+            rule: format!("{nhist} representative histories (video-only with reordering, A/V, zero-frame, single-frame; fast start on/off; with/without metadata; 4 codecs, AAC and Opus) finished on a scripted sink. Enumerated per history: (a) failure at every write call x {{Ok(0), and every stable std::io::ErrorKind except Interrupted (39 kinds)}}; (b) every byte budget j (accept exactly j bytes, then fail) for every offset of the fault-free output; (c) every schedule with <= {max_dev} deviations from accept-all over {{1 byte, half, Interrupted}}, and every 1-deviation schedule followed by a failure at every later call; (d) the full product of {{all, 1 byte, half, Interrupted}} over all calls for files written in <= 8 calls; after the finish attempt every continuation of <= 2 calls from {{finish_in_place, write_video, write_audio, finish_in_place_with_stats, flush, finish, finish_with_stats}} (for single-answer scripts). A case is distinct by (result vector, bytes the sink accepted)."),
             bound: format!("<= {max_dev} benign deviations; all single failure points; all byte offsets"),
             exhaustive: true,
             assumptions: vec!["a sink that answers Interrupted forever is excluded (write_all livelocks by contract)".into(), "Ok(0) on a non-empty buffer counts as a failure (write_all reports WriteZero)".into()],
